@@ -216,3 +216,15 @@ MANIFEST_TEXT["C11"] = {
   "text": "Held on every long history and multi-thread run: identifiers seen on the wire were non-zero and never equal to one still outstanding; several 16-bit wrap-arounds observed per run; no panic while starting operations.",
   "note": "Trusted: broker-side monitor (its `outstanding` is a subset of the truly outstanding operations, so an alarm is always genuine), mocks. The multi-thread driver is the only source of OS nondeterminism; its verdict is computed from wire order, never from wall-clock.",
   "technique": RM + "broker-side uniqueness monitor over long histories (wrap-around) and real-thread stress; ThreadSanitizer tier for the cross-thread handle/channels"}
+
+add("C16", "exploration",
+    "differential over polling disciplines: PRNG scripts (one stimulus at a time, operations of every kind, acknowledgements, inbound traffic, stream operations, cancellations, terminating causes, drop(context)) are generated under the wake-only executor "
+    "and replayed under `sweep all tasks after every event` and `spurious polls at PRNG positions`, combined with 1-/2-byte read caps, trickled arrival and partial / pending writes; the canonical observations "
+    "(request bytes, acknowledgement bytes, every operation's result, every stream's items, context results, unread byte count) must be identical; at every script end a sweep at wake-only quiescence must change nothing. "
+    "distinct = distinct (variant, abstract trace shape).",
+    {"quick": ["checked"], "thorough": ["checked", "fast"]},
+    {"quick": {"identical_observations": 3000, "spurious_polls": 10000, "sweeps": 5000}, "thorough": {"identical_observations": 300000}})
+MANIFEST_TEXT["C16"] = {
+  "text": "Every script produced identical observations under wake-only, sweep-after-every-event and spurious-poll executors and under all transport plans; no sweep at wake-only quiescence had an effect.",
+  "note": "Trusted: executor and mocks. Scripts apply one stimulus at a time so that the outcome at each settle point is unique for a correct client (confluence); races are the business of C05/C13.",
+  "technique": RM + "differential trace comparison across executor polling disciplines (wake-only vs sweeps vs spurious polls) and transport plans"}
